@@ -55,6 +55,7 @@ def register(reg):
     INSIDE = "(self.xmin <= coord.E and coord.E <= self.xmax and self.ymin <= coord.N and coord.N <= self.ymax)"
     reg.add(Spec(R + "getCell", dict(self="Raster", coord="ENUCoords"), "opt[tuple[int,int]]",
                  requires=WF,
+                 at={"if idx == self.ncol:": [("column-brackets-the-quotient", "column <= idx and idx <= column + 1")]},
                  hints=["implies(result is not None, idx * self.resolution[0] == coord.E - self.xmin)",
                         "implies(result is not None, ((self.nrow - 1) - idy) * self.resolution[1] == coord.N - self.ymin)",
                         "use implies(result is not None, mul_nonneg(idx - result[0], self.resolution[0]))",
@@ -67,7 +68,12 @@ def register(reg):
                         "use implies(result is not None, distrib(idy, result[1] - 1, self.resolution[1]))",
                         "use implies(result is not None, distrib(self.nrow - 1, idy, self.resolution[1]))",
                         "use implies(result is not None, distrib(self.nrow - 1, result[1], self.resolution[1]))",
-                        "use implies(result is not None, distrib(self.nrow, result[1], self.resolution[1]))"],
+                        "use implies(result is not None, distrib(self.nrow, result[1], self.resolution[1]))",
+                        ("column-contains-the-quotient", "implies(result is not None, result[0] <= idx and idx <= result[0] + 1)"),
+                        "use implies(result is not None, mul_mono(idx, result[0] + 1, self.resolution[0]))",
+                        "use implies(result is not None, mul_mono(result[0], idx, self.resolution[0]))",
+                        ("footprint-x-lower", "implies(result is not None, result[0] * self.resolution[0] <= coord.E - self.xmin)"),
+                        ("footprint-x-upper", "implies(result is not None, coord.E - self.xmin <= (result[0] + 1) * self.resolution[0])")],
                  ensures=[("none-iff-outside", "(result is None) == (not %s)" % INSIDE),
                           ("column-in-range", "implies(result is not None, 0 <= result[0] and result[0] < self.ncol)"),
                           ("line-in-range", "implies(result is not None, 0 <= result[1] and result[1] < self.nrow)"),
